@@ -64,3 +64,20 @@ Theorem refact_twin_user_workspace_refuted :
   exists r e, snd (pstep P2 true 0 1 (ORefact (twin_fargs 3 1001 2003 0) 3)) = RFactor r true e /\ fr_store r = 1001 /\ fr_tmp r = 1002.
 Proof. exact refact_twin_user_workspace_stale. Qed.
 Print Assumptions refact_twin_user_workspace_refuted.
+
+(* since fix 'tail blocks are aligned by the allocator' (?user_malloc aligns a TAIL block inside its critical section):
+   the alignment fix-up of p?gstrf_WorkInit is dead code -- WorkInit is its two TAIL requests and nothing else *)
+Theorem workinit_fixup_dead : forall (s : pstate) (a : fargs), work_init_one s a = work_init_one_nofix s a.
+Proof. exact work_init_one_no_fixup. Qed.
+Print Assumptions workinit_fixup_dead.
+
+(* the work arrays of the nprocs threads never touch the head of the user work space (L, U, the integer arrays: top1 is
+   unchanged, top2 stays >= top1, used = top1 + (size - top2)), whether WorkInit succeeds or a thread is refused *)
+Theorem workinit_keeps_stack_invariant : forall (p : nat) (s : pstate) (a : fargs),
+  0 <= fst (work_sizes a) -> 0 <= snd (work_sizes a) -> kinv (ps_stack s) ->
+  match work_init_all p s a with
+  | WOk s' | WFail s' _ => kinv (ps_stack s') /\ k_top1 (ps_stack s') = k_top1 (ps_stack s) /\
+                           k_top2 (ps_stack s') <= k_top2 (ps_stack s) /\ k_size (ps_stack s') = k_size (ps_stack s)
+  end.
+Proof. exact work_init_all_kinv. Qed.
+Print Assumptions workinit_keeps_stack_invariant.
